@@ -48,7 +48,8 @@ def rand_soft(rng, seq, role="constraint", allow=None):
     if k == "stop":
         if n < 3:
             return dict(kind="pattern", pattern="AA", location=None)
-        return dict(kind="stop", location=rand_loc(rng, n, codon=True), table=rng.choice(["Standard", "Bacterial"]))
+        return dict(kind="stop", location=rand_loc(rng, n, codon=True),
+                    table=rng.choice(["Standard", "Bacterial", "Vertebrate Mitochondrial", "Ciliate Nuclear", "Yeast Mitochondrial"]))
     if k == "kmers":
         return dict(kind="kmers", k=rng.choice([2, 3, 4, 5]), location=None if whole else rand_loc(rng, n, 6, strands=(1, 0)),
                     rc=rng.random() < 0.5)
@@ -224,6 +225,8 @@ def build_spec(d):
     if k == "keep_obj":
         return dc.AvoidChanges(location=loc, boost=boost)
     if k == "change_obj":
+        if d.get("indices") is not None:
+            return dc.EnforceChanges(indices=list(d["indices"]), amount_percent=d.get("amount_percent"), boost=boost)
         return dc.EnforceChanges(location=loc, amount_percent=d.get("amount_percent"), boost=boost)
     if k in ("user", "user_obj"):
         cls = user_classes()
